@@ -11,7 +11,11 @@
 (*   body and headers pass unchanged; the status code is preserved.        *)
 (*                                                                         *)
 (* Shape of the implementation: per request a mode in {undecided, gzip,    *)
-(* plain} that is decided once, at the first WriteHeader / Write; gzip     *)
+(* plain} that is decided once, at the first FINAL WriteHeader (status >=   *)
+(* 200) or Write; informational WriteHeader(1xx) calls (net/http allows    *)
+(* several before the final header) announce nothing about the response    *)
+(* and decide nothing, and the status of the response is the first final   *)
+(* one; gzip                                                               *)
 (* writers come from a pool shared by all handlers (Get + Reset at the     *)
 (* decision, flush + Put when the handler finishes).  A writer buffers:    *)
 (* what is written through it reaches the response when it is flushed.     *)
@@ -36,6 +40,9 @@ CONSTANTS
                     \*   cl  : the inner handler sets Content-Length
                     \*   acc : "other" | "sse"             Accept: text/event-stream
                     \*   method : "GET" | "HEAD"
+                    \*   late : the inner handler sets its response headers only after its informational
+                    \*          WriteHeader calls, just before the first final op (how Early Hints are used);
+                    \*          the response is the same, so the specification does not look at it
     MaxWriters,     \* bound on writers ever created (>= Cardinality(Handlers))
     PutBeforeFlush  \* FALSE = the design; TRUE = a writer goes back to the pool before it is flushed (must break the invariants)
 
@@ -49,7 +56,7 @@ VARIABLES
 vars == <<hs, pool, made, wbuf, wtarget, hist>>
 
 Writers == 1..MaxWriters
-NoReq == [ae |-> "", ct |-> "", enc |-> "", cl |-> FALSE, acc |-> "", method |-> ""]
+NoReq == [ae |-> "", ct |-> "", enc |-> "", cl |-> FALSE, acc |-> "", method |-> "", late |-> FALSE]
 Idle == [pc |-> "idle", req |-> NoReq, mode |-> "undecided", writer |-> 0, status |-> 0,
          ce |-> "", cl |-> FALSE, inner |-> <<>>, body |-> <<>>, ops |-> <<>>]
 
@@ -57,7 +64,11 @@ Idle == [pc |-> "idle", req |-> NoReq, mode |-> "undecided", writer |-> 0, statu
 \* the decision rule
 MayCompress(q)  == q.ae = "yes" /\ q.ct \in {"match", "absent"} /\ q.enc = ""
 MustCompress(q) == q.ae = "yes" /\ q.ct = "match" /\ q.enc = "" /\ q.acc # "sse"
-\* modes a response on which `n` ops were performed may end in
+\* informational (1xx) WriteHeader calls are not part of the response proper
+Informational(c) == c >= 100 /\ c < 200
+IsFinalOp(op) == op.ev = "w" \/ (op.ev = "wh" /\ ~Informational(op.code))
+NFinal(ops) == Cardinality({i \in DOMAIN ops : IsFinalOp(ops[i])})
+\* modes a response on which `n` final ops were performed may end in
 AllowedModes(q, n) == (IF MayCompress(q) THEN {"gzip"} ELSE {})
                       \cup (IF ~MustCompress(q) \/ n = 0 THEN {"plain"} ELSE {})
 \* header rules per mode: Content-Encoding and whether the inner handler's Content-Length survives
@@ -106,11 +117,15 @@ After(h, d) ==
 
 WriteHeader(h, c) ==
     /\ hs[h].pc = "serving" /\ Len(hs[h].ops) < MaxOps
-    /\ \E d \in Choices(h) :
-         /\ Take(h, d)
-         /\ wbuf' = Fresh(h, d)
-         /\ hs' = [hs EXCEPT ![h] = [After(h, d) EXCEPT !.status = IF @ = 0 THEN c ELSE @,   \* a second WriteHeader is superfluous
-                                                        !.ops = Append(@, Ev(h, "wh", c, ""))]]
+    /\ IF Informational(c)
+       THEN \* sent (or, after the final header, ignored) without touching mode, status or headers
+            /\ hs' = [hs EXCEPT ![h].ops = Append(@, Ev(h, "wh", c, ""))]
+            /\ UNCHANGED <<pool, made, wbuf, wtarget>>
+       ELSE \E d \in Choices(h) :
+              /\ Take(h, d)
+              /\ wbuf' = Fresh(h, d)
+              /\ hs' = [hs EXCEPT ![h] = [After(h, d) EXCEPT !.status = IF @ = 0 THEN c ELSE @,   \* a second final WriteHeader is superfluous
+                                                             !.ops = Append(@, Ev(h, "wh", c, ""))]]
     /\ hist' = Append(hist, Ev(h, "wh", c, ""))
 
 \* a written chunk goes through the writer (buffered) or straight to the response; nothing is
@@ -176,13 +191,16 @@ NoCrossTalk == \A h \in Handlers : \A i \in DOMAIN hs[h].body : hs[h].body[i][1]
 ContentIntact == \A h \in Handlers : hs[h].pc = "done" => hs[h].body = hs[h].inner
 \* decision and header rules
 DecisionRule == \A h \in Handlers : hs[h].pc # "idle" =>
-                   /\ hs[h].mode # "undecided" => hs[h].mode \in AllowedModes(hs[h].req, Len(hs[h].ops))
-                   /\ (hs[h].mode = "undecided") = (hs[h].ops = <<>>)
+                   /\ hs[h].mode # "undecided" => hs[h].mode \in AllowedModes(hs[h].req, NFinal(hs[h].ops))
+                   /\ (hs[h].mode = "undecided") = (NFinal(hs[h].ops) = 0)
                    /\ hs[h].mode = "gzip" => (hs[h].req.ae = "yes" /\ hs[h].req.enc = "" /\ hs[h].req.ct # "nomatch")
 HeaderRule == \A h \in Handlers : hs[h].pc # "idle" =>
                  LET m == IF hs[h].mode = "undecided" THEN "plain" ELSE hs[h].mode IN
                  /\ hs[h].ce = ExpCE(hs[h].req, m)
                  /\ hs[h].cl = ExpCL(hs[h].req, m)
-StatusRule == \A h \in Handlers : hs[h].ops # <<>> =>
-                 hs[h].status = IF hs[h].ops[1].ev = "wh" THEN hs[h].ops[1].code ELSE 200
+StatusRule == \A h \in Handlers :
+                 LET fin == {i \in DOMAIN hs[h].ops : IsFinalOp(hs[h].ops[i])} IN
+                 IF fin = {} THEN hs[h].status = 0
+                 ELSE LET i == CHOOSE j \in fin : \A k \in fin : j <= k IN
+                      hs[h].status = IF hs[h].ops[i].ev = "wh" THEN hs[h].ops[i].code ELSE 200
 =============================================================================
